@@ -21,6 +21,7 @@ type GenOpts struct {
 	Backup     bool // Backup calls with injected writers, each backup opened afterwards
 	Scans      bool // scans stepped call by call between writes
 	MoreReopen bool
+	Open2      bool // competing Open calls while the database is open
 	Churn      bool // start by filling most keys, then delete / re-put (index chains with holes)
 }
 
@@ -119,7 +120,9 @@ func GenProgram(rng *rand.Rand, id string, cfg Cfg, g GenOpts) *Program {
 			p.Ops = append(p.Ops, Op{Op: "del", K: k})
 			delete(live, k)
 		case x < 70:
-			if g.Reads {
+			if g.Open2 && rng.Intn(2) == 0 {
+				p.Ops = append(p.Ops, Op{Op: "open2"})
+			} else if g.Reads {
 				switch rng.Intn(5) {
 				case 0:
 					p.Ops = append(p.Ops, Op{Op: "get", K: pickLive()})
